@@ -2,6 +2,7 @@ package sym
 
 import (
 	"fmt"
+	"strings"
 	"go/constant"
 	"go/token"
 	"go/types"
@@ -100,11 +101,25 @@ func (in *Interp) resize(t *Term, w int, signed bool) *Term {
 	case sw == w:
 		return t
 	case sw > w:
-		return in.TC.App(BV(w), fmt.Sprintf("(_ extract %d 0)", w-1), t)
+		// extract of a visible zero/sign extension of a w-bit term is that term
+		for _, pre := range []string{fmt.Sprintf("((_ zero_extend %d) ", sw-w), fmt.Sprintf("((_ sign_extend %d) ", sw-w)} {
+			if strings.HasPrefix(t.S, pre) && strings.HasSuffix(t.S, ")") {
+				return &Term{S: t.S[len(pre) : len(t.S)-1], Sort: BV(w)}
+			}
+		}
+		r := in.TC.App(BV(w), fmt.Sprintf("(_ extract %d 0)", w-1), t)
+		if d, ok := in.TC.DigitOf(t); ok && w >= 8 {
+			in.TC.MarkDigit(r, d)
+		}
+		return r
 	case signed:
 		return in.TC.App(BV(w), fmt.Sprintf("(_ sign_extend %d)", w-sw), t)
 	default:
-		return in.TC.App(BV(w), fmt.Sprintf("(_ zero_extend %d)", w-sw), t)
+		r := in.TC.App(BV(w), fmt.Sprintf("(_ zero_extend %d)", w-sw), t)
+		if d, ok := in.TC.DigitOf(t); ok {
+			in.TC.MarkDigit(r, d)
+		}
+		return r
 	}
 }
 
@@ -395,6 +410,24 @@ func (in *Interp) symIntBinop(op token.Token, k types.BasicKind, w int, signed b
 		}
 		panic(unsupported{fmt.Sprintf("bit operation %s on Int-backed symbolic integer", op)})
 	}
+	// comparisons of a known ASCII digit character with a constant / another digit: stay in LIA
+	if op == token.LSS || op == token.LEQ || op == token.GTR || op == token.GEQ {
+		ci := func(v value) *Term {
+			switch v := v.(type) {
+			case int64:
+				return IntConst(v)
+			case *Sym:
+				if d, ok := tc.DigitOf(v.T); ok {
+					return tc.App(IntSort, "+", IntConst(48), d)
+				}
+			}
+			return nil
+		}
+		if xa, ya := ci(x), ci(y); xa != nil && ya != nil {
+			name := map[token.Token]string{token.LSS: "<", token.LEQ: "<=", token.GTR: ">", token.GEQ: ">="}[op]
+			return symOrBool(tc.App(BoolSort, name, xa, ya))
+		}
+	}
 	s := BV(w)
 	a, b := in.toTermSigned(x, s, signed), in.toTermSigned(y, s, signed)
 	bin := func(name string) value { return &Sym{T: tc.App(s, name, a, b)} }
@@ -518,9 +551,22 @@ func (in *Interp) equalsV(t types.Type, x, y value) value {
 		case int64:
 			return xv == yv
 		case *Sym:
+			if d, ok := in.TC.DigitOf(yv.T); ok {
+				return symOrBool(in.TC.Eq(d, IntConst(xv-48)))
+			}
 			return symOrBool(in.TC.Eq(in.toTerm(xv, yv.T.Sort), yv.T))
 		}
 	case *Sym:
+		if d, ok := in.TC.DigitOf(xv.T); ok {
+			switch yv := y.(type) {
+			case int64:
+				return symOrBool(in.TC.Eq(d, IntConst(yv-48)))
+			case *Sym:
+				if d2, ok := in.TC.DigitOf(yv.T); ok {
+					return symOrBool(in.TC.Eq(d, d2))
+				}
+			}
+		}
 		switch yv := y.(type) {
 		case *Sym:
 			if xv.T.Sort != yv.T.Sort {
